@@ -96,4 +96,14 @@ def ArgOnGrid : Layer → Prop
   | .vector s n => s ≠ .intLiteral ∧ s ≠ .floatLiteral ∧ 2 ≤ n ∧ n ≤ 4
   | _ => False
 
+/-- the types of the passed arguments equal the types of their parameters (value category and modifiers of the
+    argument expression are not part of its type; trailing defaulted parameters receive no argument) -/
+def SameLayers : List Param → List ETy → Prop
+  | p :: ps, a :: as => p.ty.layer = a.ty.layer ∧ SameLayers ps as
+  | _, [] => True
+  | [], _ :: _ => False
+
+/-- "a candidate whose parameter types equal the argument types exactly" (and which can be called at all) -/
+def TypeExact (args : List ETy) (c : Cand) : Prop := (∃ rs, Viable args c rs) ∧ SameLayers c.params args
+
 end RsslVerif.Spec.Overload
